@@ -8,6 +8,7 @@ CONSTANTS
   PoleRots <- ThoroughRots
   GridSteps = {3, 6, 11, 20, 51, 101}
   DataN = {1, 7, 40, 100, 130}
+  BigDataN = {2000, 4633, 20011}
   DataClasses <- AllDataClasses
   Weights <- ThoroughWeights
 INVARIANT AzTableLemma
